@@ -206,10 +206,11 @@ class Summary:
 class DynFrame:
     """dynamic frame: static frame + hole callback + inline depth"""
     __slots__ = ('frame', 'hole', 'depth', 'assume', 'single_assign', 'ptypes',
-                 'want_truth')
+                 'want_truth', 'bindings', 'fid', 'helper_depth')
+    _next_fid = [0]
 
     def __init__(self, frame: Frame, depth=0, hole=None, assume=None, ptypes=None,
-                 want_truth=False):
+                 want_truth=False, bindings=None, helper_depth=0):
         self.frame = frame
         self.hole = hole
         self.depth = depth
@@ -217,6 +218,12 @@ class DynFrame:
         self.single_assign = None
         self.ptypes = ptypes or {}
         self.want_truth = want_truth
+        #: transparent helper frames: parameter -> (argument expression, index of the
+        #: 'enter' event in the path) so that rules can follow values into the caller
+        self.bindings = bindings
+        self.helper_depth = helper_depth
+        DynFrame._next_fid[0] += 1
+        self.fid = DynFrame._next_fid[0]
 
     @property
     def fn(self) -> FunctionInfo:
@@ -249,6 +256,9 @@ class Interp:
         self.asserts = asserts
         self.inline = inline
         self.max_depth = max_depth
+        #: transparently inline private helpers of the same object / module (rule paths)
+        self.helpers = False
+        self._helper_stack = []
         self._summaries = {}
         self._busy = set()
         self._try_stack = []
@@ -273,10 +283,18 @@ class Interp:
         return found
 
     # -------------------------------------------------------------- top level
-    def paths_of(self, callee: Callee, assume: dict = None, hole=None) -> List[Path]:
+    def paths_of(self, callee: Callee, assume: dict = None, hole=None,
+                 which: str = None) -> List[Path]:
         """all paths of one function under a receiver and optional initial facts"""
         self._n = 0
-        return self._paths_of(callee, assume, hole)
+        saved = self._try_stack
+        self._try_stack = []
+        try:
+            return self._paths_of(callee, assume, hole,
+                                  ptypes=self.ptypes_for(callee, which) if which else None,
+                                  want_truth=callee.fn.name in ('__aexit__', '__exit__'))
+        finally:
+            self._try_stack = saved
 
     def _paths_of(self, callee: Callee, assume=None, hole=None, depth=0, ptypes=None,
                   want_truth=False) -> List[Path]:
@@ -365,8 +383,8 @@ class Interp:
         saved_try = self._try_stack
         self._try_stack = []
         # summaries are always inline-free, whoever asks for them
-        saved_inline = (self.inline, self.max_depth)
-        self.inline, self.max_depth = None, 0
+        saved_inline = (self.inline, self.max_depth, self.helpers)
+        self.inline, self.max_depth, self.helpers = None, 0, False
         try:
             assume = self.assume_for(callee, which) if which else None
             hole = self._default_hole_ev if callee.fn.kind == 'ctxgen' else None
@@ -377,7 +395,7 @@ class Interp:
         finally:
             self._busy.discard(key)
             self._try_stack = saved_try
-            self.inline, self.max_depth = saved_inline
+            self.inline, self.max_depth, self.helpers = saved_inline
         self._summaries[key] = summ
         return summ
 
@@ -580,6 +598,9 @@ class Interp:
         event = Event(kind, node, fr.frame, fr.depth, **data)
         if kind in self._FACT_KINDS:
             event.data['facts'] = dict(st.facts)
+        event.data['fid'] = fr.fid
+        if fr.bindings is not None:
+            event.data['bind'] = fr.bindings
         st.events.append(event)
         return event
 
@@ -1299,6 +1320,18 @@ class Interp:
         site = (fr.fn.qn, getattr(node, 'lineno', 0), getattr(node, 'col_offset', 0), how)
         self.stats['susp_sites'].add(site)
         summaries = [self.summary(c, which) for c in callees]
+        if how == 'await' and len(callees) == 1 and not base and not user and \
+                isinstance(node, ast.Await) and isinstance(node.value, ast.Call) and \
+                self._is_helper(node, callees[0], fr):
+            results = []
+            for out, s in self._inline_helper(node, node.value, how, callees[0], st, fr):
+                if out[0] in ('normal', 'return'):
+                    results.append((NORMAL, s))
+                elif out[0] == 'raise':
+                    results.append((out, s))
+                else:
+                    raise AnalysisError('break/continue escaping %s' % callees[0])
+            return results
         if fr.depth < self.max_depth and self.inline is not None and len(callees) == 1 \
                 and not base and not user and self.inline(callees[0], fr.depth) \
                 and not summaries[0].cyclic:
@@ -1401,6 +1434,114 @@ class Interp:
                 results.append((out, s))
             else:
                 raise AnalysisError('break/continue escaping %s' % callee)
+        return results
+
+    HELPER_DEPTH = 3
+    HELPER_PATHS = 10
+
+    def _is_helper(self, node, callee: Callee, fr: DynFrame) -> bool:
+        """a private helper of the same object / module that is inlined transparently"""
+        if not self.helpers or fr.helper_depth >= self.HELPER_DEPTH:
+            return False
+        fn = callee.fn
+        if fn.kind not in ('sync', 'coroutine') or fn.is_property or fn.is_static or \
+                fn.is_classmethod:
+            return False
+        name = fn.name
+        if not name.startswith('_') or (name.startswith('__') and name.endswith('__')):
+            return False
+        if callee.key() in self._helper_stack:
+            return False
+        if fn.cls is not None:
+            if not self._same_self(node, fr, callee):
+                return False
+        else:
+            if fn.module is not fr.fn.module or fn.parent is not None:
+                return False
+        if any(d.split('.')[-1] == 'abstractmethod' for d in fn.decorators):
+            return False
+        summ = self.summary(callee)
+        # only small helpers: inlining multiplies paths
+        return not summ.cyclic and summ.n_paths <= self.HELPER_PATHS
+
+    def _bind_arguments(self, call: ast.Call, callee: Callee, enter_index: int) -> dict:
+        params = callee.fn.node.args.posonlyargs + callee.fn.node.args.args
+        if callee.fn.cls is not None and not callee.fn.is_static:
+            params = params[1:]
+        bindings = {}
+        for param, arg in zip(params, call.args):
+            if isinstance(arg, ast.Starred):
+                break
+            bindings[param.arg] = (arg, enter_index)
+        names = {p.arg for p in params + callee.fn.node.args.kwonlyargs}
+        for kw in call.keywords:
+            if kw.arg in names:
+                bindings[kw.arg] = (kw.value, enter_index)
+        # defaults of parameters that were not given
+        defaults = callee.fn.node.args.defaults
+        offset = len(callee.fn.node.args.posonlyargs + callee.fn.node.args.args) - \
+            len(defaults)
+        allp = callee.fn.node.args.posonlyargs + callee.fn.node.args.args
+        for index, default in enumerate(defaults):
+            pname = allp[offset + index].arg
+            if pname not in bindings and pname in names:
+                bindings[pname] = (default, enter_index)
+        return bindings
+
+    def _inline_helper(self, node, call: ast.Call, how, callee: Callee, st: St, fr: DynFrame,
+                       want_truth=False):
+        """
+        Run a private helper as if its body stood in the caller (same depth); parameter
+        types, bindings and facts about ``self`` follow the call.  Returns
+        [(outcome, state)] with outcome ('normal'|'return', value node, truth?) / raise.
+        """
+        enter_index = len(st.events)
+        bindings = self._bind_arguments(call, callee, enter_index)
+        self._emit(st, 'enter', node, fr, callee=callee, how='helper', which=None,
+                   expr=None, args=bindings)
+        ptypes = {name: self._arg_type(arg, st, fr) for name, (arg, _i) in bindings.items()}
+        sub = DynFrame(Frame(callee.fn, callee.recv), depth=fr.depth, ptypes=ptypes,
+                       want_truth=want_truth, bindings=bindings,
+                       helper_depth=fr.helper_depth + 1)
+        saved = st.facts
+        st.facts = {}
+        same_self = callee.fn.cls is not None
+        renames = [(arg.id, name) for name, (arg, _i) in bindings.items()
+                   if isinstance(arg, ast.Name)]
+        for key_, value in saved.items():
+            deps = _fact_deps(key_)
+            if same_self and deps and all(d == 'self' or d.startswith('self.') for d in deps):
+                st.facts[key_] = value
+            for old, new in renames:
+                if key_[0] == 'isnone' and key_[1] == old:
+                    st.facts[('isnone', new)] = value
+                elif key_[0] == 'truth' and key_[1] == old:
+                    st.facts[('truth', new)] = value
+                elif key_[0] == 'is' and old in key_[1:]:
+                    other = key_[2] if key_[1] == old else key_[1]
+                    if other == 'GeneratorExit' or (same_self and other.startswith('self.')):
+                        first, second = sorted((other, new))
+                        st.facts[('is', first, second)] = value
+        self.stats['functions'].add(callee.key())
+        self._helper_stack.append(callee.key())
+        results = []
+        try:
+            for out, s in self.exec_block(callee.fn.node.body, st, sub):
+                inner = s.facts
+                # the caller's facts: locals survive, facts about attributes only if the
+                # helper could not have changed them (it re-established them otherwise)
+                s.facts = {k: v for k, v in saved.items() if not _fact_has_attr(k)}
+                if same_self:
+                    for key_, value in inner.items():
+                        deps = _fact_deps(key_)
+                        if deps and all(d == 'self' or d.startswith('self.') for d in deps):
+                            s.facts[key_] = value
+                self._emit(s, 'leave', node, fr, callee=callee, how='helper',
+                           outcome=out[0], ret=out[1] if out[0] == 'return' else None,
+                           ret_fid=sub.fid, ret_bind=bindings)
+                results.append((out, s))
+        finally:
+            self._helper_stack.pop()
         return results
 
     def _same_self(self, node, fr: DynFrame, callee: Callee) -> bool:
@@ -1556,6 +1697,18 @@ class Interp:
 
     def _call_effect(self, node, callees, externals, st: St, fr: DynFrame, raised, how):
         sync = [c for c in callees if c.fn.kind in ('sync', 'lambda')]
+        if how == 'call' and len(callees) == 1 and not externals and \
+                callees[0].fn.kind == 'sync' and isinstance(node, ast.Call) and \
+                self._is_helper(node, callees[0], fr):
+            results = []
+            for out, s in self._inline_helper(node, node, how, callees[0], st, fr):
+                if out[0] in ('normal', 'return'):
+                    results.append(s)
+                elif out[0] == 'raise':
+                    raised.append((out, s))
+                else:
+                    raise AnalysisError('break/continue escaping %s' % callees[0])
+            return results
         # creating a coroutine / generator object runs nothing
         if (fr.depth < self.max_depth and self.inline is not None and len(sync) == 1
                 and len(callees) == 1 and not externals and how in ('call', 'property')
@@ -1935,6 +2088,31 @@ class Interp:
         busy = ('truth',) + callee.key()
         if busy in self._busy or self.summary(callee).cyclic:
             return None
+        if self._is_helper(expr, callee, fr):
+            func = expr.func
+            sts = [st]
+            if isinstance(func, ast.Attribute):
+                sts = self.ev(func.value, sts, fr, raised)
+            for arg in expr.args:
+                sts = self.ev(arg, sts, fr, raised)
+            for kw in expr.keywords:
+                sts = self.ev(kw.value, sts, fr, raised)
+            results = []
+            call_key = ('truth', _txt(expr))
+            for s in sts:
+                for out, s2 in self._inline_helper(expr, expr, 'helper', callee, s, fr,
+                                                   want_truth=True):
+                    if out[0] == 'raise':
+                        raised.append((out, s2))
+                        continue
+                    truth = out[2] if out[0] == 'return' and len(out) > 2 else False
+                    options = [True, False] if truth == 'unknown' else [bool(truth)]
+                    for index, value in enumerate(options):
+                        target = s2 if index == len(options) - 1 else s2.fork()
+                        self._emit(target, record, expr, fr, key=call_key, value=value,
+                                   known=truth != 'unknown', positive=True, inlined=True)
+                        results.append((value, target))
+            return results
         func = expr.func
         sts = [st]
         if isinstance(func, ast.Attribute):
